@@ -5,6 +5,8 @@
 From Coq Require Import String List ZArith Bool.
 From ChibiV Require Import C13.Defs C13.Allowed C13.Model C13.Proofs C13.Inventory Gen.C13_Statics C13.Res C13.ResProofs.
 From ChibiV Require C13.Sig C13.SigProofs C13.Tab C13.TabProofs.
+From ChibiV Require C13.Libc C13.AllowedLibc C13.LibcInventory Gen.C13_Imports.
+From ChibiV Require C13.Ns C13.NsProofs.
 Import ListNotations.
 
 (** generated obligation: every writable object of every shared object of the current build is on the reviewed
@@ -253,3 +255,88 @@ Theorem only_own_signals_observed : forall pi i c s,
 Proof. exact SigProofs.only_own_signals_observed. Qed.
 Print Assumptions only_own_signals_observed.
 End S.
+
+
+(** round 4: state shared OUTSIDE chibi's objects -- inside the C library and through file-system names.
+    [imports] = undefined dynamic symbols of every shared object of THIS build with the functions that reference them,
+    [sites] = file-creation sites of the Scheme libraries (both regenerated on every run); [mt_unsafe] = glibc attributes(7)
+    "MT-Unsafe" / POSIX 2.9.1 / hidden-state table (C13/Libc.v), [import_allow] / [site_allow] = reviewed entries. *)
+Module L.
+Import C13.Libc C13.AllowedLibc C13.LibcInventory Gen.C13_Imports.
+Local Open Scope string_scope.
+
+(** generated obligation *)
+Theorem imports_all_classified : forallb (check_import mt_unsafe import_allow) imports = true.
+Proof. exact LibcInventory.imports_all_classified. Qed.
+Print Assumptions imports_all_classified.
+
+(** every import of a listed function, by any shared object of the build, has a reviewed entry for that shared object; it is
+    referenced only by the functions the entry names, and the excuse fits the kind of sharing the function introduces *)
+Theorem unsafe_imports_reviewed : forall i u, In i imports -> In u mt_unsafe -> u_name u = i_sym i ->
+  exists v a, In v mt_unsafe /\ u_name v = i_sym i /\ In a import_allow /\ ia_lib a = i_lib i /\ ia_sym a = i_sym i /\
+              i_callers i <> [] /\ incl (i_callers i) (ia_callers a) /\ excuse_fits (u_hazard v) (ia_excuse a) = true.
+Proof. exact LibcInventory.unsafe_imports_reviewed. Qed.
+Print Assumptions unsafe_imports_reviewed.
+
+(** calls whose result / working state is static storage inside libc are excused only as "storage owned by one context's
+    object" or "per-thread in the supported libc", never as a documented process attribute *)
+Theorem static_storage_calls_owned_or_per_thread :
+  forallb (fun i => negb (static_storage (i_sym i)) ||
+                    match find_iallow import_allow (i_lib i) (i_sym i) with
+                    | Some a => match ia_excuse a with PerObject | SafeHere => true | _ => false end
+                    | None => false end) imports = true.
+Proof. exact LibcInventory.static_storage_calls_owned_or_per_thread. Qed.
+Print Assumptions static_storage_calls_owned_or_per_thread.
+
+(** ctime asctime localtime gmtime getpwnam getpwuid getgrnam getgrgid strtok rand srand random drand48 lgamma gethostbyname
+    inet_ntoa tmpnam ttyname getlogin crypt setlocale: imported by NO shared object of the build *)
+Theorem no_classic_static_buffer_function_imported : forall i, In i imports -> ~ In (i_sym i) classic_static.
+Proof. exact LibcInventory.no_classic_static_buffer_function_imported_prop. Qed.
+Print Assumptions no_classic_static_buffer_function_imported.
+
+(** generated obligation: creation sites of the Scheme libraries *)
+Theorem creation_sites_atomic_or_reviewed : forallb (check_site site_allow) sites = true.
+Proof. exact LibcInventory.creation_sites_atomic_or_reviewed. Qed.
+Print Assumptions creation_sites_atomic_or_reviewed.
+
+(** a file created under a name derived from process id / clock / random numbers (the same in every context of the process)
+    is created with open/exclusive *)
+Theorem generated_names_created_atomically : forall s, In s sites -> st_kind s = "open-flags" -> st_generated s = true ->
+  In "open/exclusive" (st_flags s).
+Proof. exact LibcInventory.generated_names_created_atomically. Qed.
+Print Assumptions generated_names_created_atomically.
+End L.
+
+
+(** round 4: the name space shared through the file system -- the candidate-name loop of lib/chibi/temp-file.scm (model C13/Ns.v:
+    one step = one system call of one context; candidates base++i are the same in every context of the process) *)
+Module N.
+Import C13.Ns C13.NsProofs.
+
+(** any number of contexts, same template, same second, ANY interleaving of their system calls: with atomic creation
+    (open/create|open/exclusive, mkdir) no two contexts ever hold the same temporary file -- for the pinned retry logic and the repaired one *)
+Theorem exclusive_creation_unique_owner : forall rt pi c c' i,
+  holds (run Exclusive rt pi w0) c i -> holds (run Exclusive rt pi w0) c' i -> c = c'.
+Proof. exact NsProofs.exclusive_creation_unique_owner. Qed.
+Print Assumptions exclusive_creation_unique_owner.
+
+Theorem held_file_exists : forall rt pi c i, holds (run Exclusive rt pi w0) c i -> In i (fs (run Exclusive rt pi w0)).
+Proof. exact NsProofs.held_file_exists. Qed.
+Print Assumptions held_file_exists.
+
+(** the repaired retry logic (fixes/C13-temp-file-lost-race-raises.patch) never raises because of what other contexts do *)
+Theorem repaired_never_raises : forall cr pi c, ph (run cr Fixed pi w0) c <> Raised.
+Proof. exact NsProofs.repaired_never_raises. Qed.
+Print Assumptions repaired_never_raises.
+
+(** refuted: the pinned retry logic raises in the context that lost the race (8 system calls of 2 contexts) *)
+Theorem pinned_retry_raises_refuted : ph (run Exclusive Orig [0; 1; 0; 1; 0; 1; 0; 1] w0) 1 = Raised.
+Proof. exact NsProofs.pinned_retry_raises_refuted. Qed.
+Print Assumptions pinned_retry_raises_refuted.
+
+(** refuted: without open/exclusive (the seeded change) two contexts hold the same file after 6 system calls *)
+Theorem truncate_shares_a_file_refuted :
+  let w := run Truncate Fixed [0; 1; 0; 1; 0; 1] w0 in ph w 0 = Holding 0 /\ ph w 1 = Holding 0.
+Proof. exact NsProofs.truncate_shares_a_file. Qed.
+Print Assumptions truncate_shares_a_file_refuted.
+End N.
